@@ -589,8 +589,9 @@ def check_cli_dirs(case, ev, d):
                 with open(os.path.join(base, nm, f), "w") as fh:
                     fh.write(text)
     kind = case["kind"]
-    page = {"include": '<%include file="part.html"/>|page ${v}', "inherit": '<%inherit file="base.html"/>page ${v}',
-            "namespace": '<%namespace name="n" file="fns.html"/>${n.f(v)}', "abs": '<%include file="/part.html"/>|page ${v}'}[kind]
+    # (a relative file= is resolved against the URI of the page, which for mako-render FILE is the file's whole path)
+    page = {"include": '<%include file="/part.html"/>|page ${v}', "inherit": '<%inherit file="/base.html"/>page ${v}',
+            "namespace": '<%namespace name="n" file="/fns.html"/>${n.f(v)}', "rel": '<%include file="part.html"/>|page ${v}'}[kind]
     fn = os.path.join(base, "site", "page.mako")
     with open(fn, "w") as fh:
         fh.write(page)
@@ -621,7 +622,7 @@ def check_cli_dirs(case, ev, d):
 
 
 def check_cli_dirs_all(ev, fails, d):
-    for kind in ("include", "inherit", "namespace", "abs"):
+    for kind in ("include", "inherit", "namespace", "rel"):
         for tdirs in ([], ["shared"], ["other", "shared"], ["shared", "site"], ["site", "shared"], ["other"]):
             for present in (["site", "shared", "other"], ["site", "shared"], ["shared"], ["site"], ["other"]):
                 case = {"part": "cli-dirs", "kind": kind, "tdirs": tdirs, "present": present}
